@@ -195,7 +195,8 @@ def run_case(rng, tier, case):
     transferable = cls in ('uncoupled', 'storage')
     if ru.ok and not transferable:
         # WHERE the assets act is the same with and without the split, whatever couples the intervals
-        cells_ = lambda m_: set(zip(m_['asset'].astype(str), m_['node'].astype(str), m_['time_step'].astype(int)))
+        # (the size variable of a scaled asset is booked at the first step of whatever grid the problem is set up on: not a place where the asset acts)
+        cells_ = lambda m_: set(zip(m_[m_['type'] != 'size']['asset'].astype(str), m_[m_['type'] != 'size']['node'].astype(str), m_[m_['type'] != 'size']['time_step'].astype(int)))
         cu = cells_(ru.op.mapping); cs_ = cells_(ms)
         case.check('split.rows_match_unsplit', cu == cs_, nonvacuous=n_int >= 2, only_unsplit=sorted(cu - cs_)[:4], only_split=sorted(cs_ - cu)[:4])
     if transferable and ru.ok:
@@ -207,7 +208,7 @@ def run_case(rng, tier, case):
         same_rows = sorted(ku.values()) == sorted(ks.values())
         # what must agree is WHERE the assets act: the (asset, node, step) rows on the original grid. How many variables an asset uses for a step may
         # differ legitimately (a contract whose capacity has one sign inside an interval needs one variable there, two over the whole horizon)
-        cells = lambda m_: set(zip(m_['asset'].astype(str), m_['node'].astype(str), m_['time_step'].astype(int)))
+        cells = lambda m_: set(zip(m_[m_['type'] != 'size']['asset'].astype(str), m_[m_['type'] != 'size']['node'].astype(str), m_[m_['type'] != 'size']['time_step'].astype(int)))
         case.check('split.rows_match_unsplit', cells(su.mapping) == cells(ms), nonvacuous=n_int >= 2, n_unsplit=len(ku), n_split=len(ks),
                    only_unsplit=sorted(cells(su.mapping) - cells(ms))[:4], only_split=sorted(cells(ms) - cells(su.mapping))[:4])
         if same_rows and len(set(ku.values())) == len(ku):
